@@ -2,6 +2,7 @@ import CookModel.Analysis.Collector
 import CookModel.Lemmas.Text
 import CookModel.Lemmas.LexLaws
 import CookModel.Lemmas.Roundtrip
+import CookModel.Lemmas.RoundtripQty
 /-
   C01  Printing a recipe as Cooklang and parsing it returns that recipe.
 
@@ -241,5 +242,59 @@ example : numericValue (α := Rat) (spellVal (.num (.frac ['1'] ['0'])) {}) =
     some (.error ⟨.error, .parse, "division-by-zero", [⟨0, 1⟩]⟩) := by rfl
 example : (AVal.text [tk .int ['2']]).ok toyCharSpec = false := by decide
 example : (AVal.text [tk .word ['a'], tk .ws [' '], tk .ws [' '], tk .word ['b']]).ok toyCharSpec = false := by decide
+
+/-! ### the quantity layer: `spellQty` is read back by `parse_quantity` -/
+
+/-- The regular quantity parser, run on the sub-block of tokens between the braces
+    (`s.toks = ts`, cursor 0) where `ts` spells `[blanks =] value [% blanks unit blanks]`
+    (`spellQty`, any value of the value layer, unit = words separated by single spaces), returns
+    the intended value (located), a scaling lock iff `=` was written, the unit text whose trimmed
+    string is the intended unit, `unitSep` set iff a unit was written, the span of the whole
+    sub-block — and the final state is the initial one with the cursor at the end: NO event is
+    pushed (no error, no warning), no panic.  `RunAt` (adjacent tokens) is what the lexer gives. -/
+theorem C01_quantity_roundtrip {α : Type} [Arith α] (q : AQty) (p : QPad) (s : BP α)
+    (hq : q.ok s.cs = true) (hp : p.ok s.cs = true)
+    (hr : q.val.isRange = true → s.ext.has Gen.EXT_RANGE_VALUES = true)
+    (ts : List Tok) (hs : Spells ts (spellQty q p)) (ht : s.toks = ts) (hc : s.cur = 0)
+    (hrun : RunAt (baseOff ts) ts) :
+    ∃ vspan lspan unitT sep,
+      parseRegularQuantity s =
+        (⟨⟨⟨⟨⟨q.val.denote, vspan⟩, lspan⟩, unitT⟩, tokensSpan ts⟩, sep⟩, { s with cur := ts.length }) ∧
+      lspan.isSome = q.lock ∧ unitT.map (fun t => t.trimmed s.cs) = q.unit.map leafText ∧
+      sep.isSome = q.unit.isSome :=
+  rt_parseRegularQuantity q p s hq hp hr ts hs ht hc hrun
+
+/-- `parse_quantity` (what the component parsers call) gives the same result under every
+    extension set and hands the outer parser back exactly as it was.  With ADVANCED_UNITS the
+    advanced form is tried first and declines: a `%` is present, or the value is a number
+    without unit, or a text value starting with a word (`AQty.advSafe`; this is the exact side
+    condition: `{2 heaped}` without `%` IS number + unit under ADVANCED_UNITS, see the example). -/
+theorem C01_quantity_roundtrip_any_ext {α : Type} [Arith α] (q : AQty) (p : QPad) (outer : BP α)
+    (hq : q.ok outer.cs = true) (hp : p.ok outer.cs = true)
+    (hr : q.val.isRange = true → outer.ext.has Gen.EXT_RANGE_VALUES = true)
+    (hadv : outer.ext.has Gen.EXT_ADVANCED_UNITS = true → q.advSafe = true)
+    (ts : List Tok) (hs : Spells ts (spellQty q p)) (hrun : RunAt (baseOff ts) ts) :
+    ∃ vspan lspan unitT sep,
+      parseQuantity ts outer = (⟨⟨⟨⟨⟨q.val.denote, vspan⟩, lspan⟩, unitT⟩, tokensSpan ts⟩, sep⟩, outer) ∧
+      lspan.isSome = q.lock ∧ unitT.map (fun t => t.trimmed outer.cs) = q.unit.map leafText ∧
+      sep.isSome = q.unit.isSome :=
+  rt_parseQuantity q p outer hq hp hr hadv ts hs hrun
+
+/-! examples: ` = 1 1 / 2 % fl oz `, and the `advSafe` clause -/
+def C01_exQty : AQty :=
+  { lock := true, val := C01_exMixed, unit := some [tk .word "fl".toList, tk .ws [' '], tk .word "oz".toList] }
+def C01_exQPad : QPad := { l0 := [tk .ws [' ']], v := C01_exPad, u0 := [tk .ws [' ']], u1 := [tk .ws [' ']] }
+
+example : C01_exQty.ok toyCharSpec = true ∧ C01_exQPad.ok toyCharSpec = true ∧ C01_exQty.advSafe = true := by decide
+example : ({ val := C01_exText } : AQty).advSafe = false := by decide
+example : ({ val := C01_exText, unit := some [tk .word ['g']] } : AQty).advSafe = true := by decide
+/-- the clause is needed: under ADVANCED_UNITS `{2 heaped}` is the number 2 with unit `heaped`,
+    without the extension it is the text value `2 heaped` without unit -/
+def C01_twoHeaped : List Tok := [⟨.int, ['2'], 0⟩, ⟨.ws, [' '], 1⟩, ⟨.word, "heaped".toList, 2⟩]
+example : Spells C01_twoHeaped (spellQty { val := C01_exText } {}) := by decide
+example : (parseQuantity (α := Rat) C01_twoHeaped
+    ⟨[], 0, ⟨Gen.EXT_ADVANCED_UNITS⟩, toyCharSpec, #[], none⟩).1.quantity.val.unit.isSome = true := by decide
+example : (parseQuantity (α := Rat) C01_twoHeaped
+    ⟨[], 0, ⟨0⟩, toyCharSpec, #[], none⟩).1.quantity.val.unit.isSome = false := by decide
 
 end Cook
